@@ -15,6 +15,8 @@ pub trait ExWrite {
     spec fn wf(&self) -> bool;
     /// a ghost constant no write changes
     spec fn anchor(&self) -> nat;
+    /// everything accepted so far has been flushed (true right after a successful flush; unknown after a write)
+    spec fn flushed(&self) -> bool;
 
     fn write(&mut self, buf: &[u8]) -> (r: std::io::Result<usize>)
         requires old(self).wf(),
@@ -34,5 +36,6 @@ pub trait ExWrite {
 
     fn flush(&mut self) -> (r: std::io::Result<()>)
         requires old(self).wf(),
-        ensures final(self).wf(), final(self).sink() == old(self).sink(), final(self).anchor() == old(self).anchor();
+        ensures final(self).wf(), final(self).sink() == old(self).sink(), final(self).anchor() == old(self).anchor(),
+            r is Ok ==> final(self).flushed();
 }
